@@ -134,9 +134,9 @@ from btclib.ecc import dsa
 from btclib.exceptions import BTClibRuntimeError
 
 
-@ob("C02", "sign_is_rfc6979_with_core_low_r_grinding", quick=[dict(curve="secp192k1", attempts=2), dict(curve="secp160r1", attempts=2), dict(curve="secp112r2", attempts=2)],
+@ob("C02", "sign_is_rfc6979_with_core_low_r_grinding", quick=[dict(curve="secp192k1", attempts=2), dict(curve="secp112r2", attempts=2)],
     thorough=[dict(curve="secp256k1", attempts=2), dict(curve="secp192k1", attempts=3), dict(curve="secp160r1", attempts=3), dict(curve="secp112r2", attempts=2)],
-    bound="catalogued curves with sha256; private key, the 32 digest octets, lower_s and grind symbolic; at most `attempts` grinding attempts of at most two nonce candidates each: "
+    bound="catalogued curves with sha256 (the order of secp192k1 / secp256k1 fills its octets, so a high r occurs and the loop runs; on secp112r2 / secp160r1 every r is low); private key, the 32 digest octets, lower_s and grind symbolic; at most `attempts` grinding attempts of at most two nonce candidates each: "
           "sign_ returns the signature made under the RFC 6979 nonce with no additional data, or -- grinding, while r does not fit n_size octets as a signed integer -- under the nonce "
           "with additional data = the attempt counter as 32 little-endian octets (Core's CKey::Sign); the signature equation itself is abstract here (r, s are arbitrary functions of (c, q, k)), "
           "it is the subject of sign_then_verify_and_recover",
